@@ -20,27 +20,21 @@ Theorem C03_analysis_sound : forall (w : world) (opt : label -> oclass), base_ok
 Proof. exact an_sound. Qed.
 Print Assumptions C03_analysis_sound.
 
-(* every single-process Linux query (and as_dict() over all of them) in a world where descriptors, threads
-   and smaps_rollup may disappear under a live process *)
-Theorem C03_live_methods_sound : forall w, base_ok opt_race w ->
+(* every single-process Linux query -- exe(), cwd(), ppid() included -- and as_dict() over all of them, in every
+   world where the exe/cwd links may report ENOENT (kernel thread, zombie) and descriptors, threads and
+   smaps_rollup may disappear under a live process *)
+Theorem C03_linux_methods_sound : forall w, base_ok opt_links w ->
   forall p, In p (as_dict_all :: linux_scripts) ->
   forall s, s_cache s = false -> allowed (fst (run w p s)) (gone w (snd (run w p s))).
-Proof. exact live_methods_sound. Qed.
-Print Assumptions C03_live_methods_sound.
+Proof. exact linux_methods_sound. Qed.
+Print Assumptions C03_linux_methods_sound.
 
-(* kernel thread (exe link reports ENOENT): every query except exe() *)
-Theorem C03_kthread_methods_sound : forall w, base_ok opt_exe w ->
-  forall p, In p (backend_scripts ++ link_scripts ++ [ f_create_time; f_is_running ]) ->
-  forall s, s_cache s = false -> allowed (fst (run w p s)) (gone w (snd (run w p s))).
-Proof. exact kthread_methods_sound. Qed.
-Print Assumptions C03_kthread_methods_sound.
-
-(* zombie (exe and cwd links report ENOENT): every query except exe() and cwd() *)
-Theorem C03_zombie_methods_sound : forall w, base_ok opt_links w ->
-  forall p, In p (backend_scripts ++ [ f_create_time; f_is_running ]) ->
-  forall s, s_cache s = false -> allowed (fst (run w p s)) (gone w (snd (run w p s))).
-Proof. exact zombie_methods_sound. Qed.
-Print Assumptions C03_zombie_methods_sound.
+(* parent(), parents(), children(): the same, except that NoSuchProcess / ZombieProcess / AccessDenied raised by a
+   query on the parent or a child carries that process's pid *)
+Theorem C03_tree_methods_sound : forall w, base_ok opt_links w -> forall p, In p tree_scripts ->
+  forall s, s_cache s = false -> allowed_tree (fst (run w p s)) (gone w (snd (run w p s))).
+Proof. exact tree_methods_sound. Qed.
+Print Assumptions C03_tree_methods_sound.
 
 (* once the process is gone every OS-consulting query raises NoSuchProcess with the object's pid *)
 Theorem C03_gone_sticky : forall w, base_ok opt_links w -> forall p, In p consulting_scripts ->
@@ -48,45 +42,24 @@ Theorem C03_gone_sticky : forall w, base_ok opt_links w -> forall p, In p consul
 Proof. exact gone_sticky. Qed.
 Print Assumptions C03_gone_sticky.
 
-(* ppid() (and as_dict() including it): psutil errors only -- but see C03_ppid_refuted.
-   Full statement that is FALSE of the code: allowed (fst (run w f_ppid s)) (gone w (snd (run w f_ppid s))). *)
-Theorem C03_ppid_partial : forall w, base_ok opt_links w ->
-  forall s, s_cache s = false -> allowed_weak (fst (run w f_ppid s)).
-Proof. exact ppid_partial. Qed.
-Print Assumptions C03_ppid_partial.
-Theorem C03_as_dict_ppid_partial : forall w, base_ok opt_race w ->
-  forall s, s_cache s = false -> allowed_weak (fst (run w as_dict_all_ppid s)).
-Proof. exact as_dict_ppid_partial. Qed.
-Print Assumptions C03_as_dict_ppid_partial.
-
-(* parent() / parents(): no bare error escapes (errors may carry the parent's pid) *)
-Theorem C03_parent_tree_guarded : forallb (tree_guarded opt_race) [ f_parent; f_parents ] = true.
-Proof. exact tree_table. Qed.
-Print Assumptions C03_parent_tree_guarded.
-
-(* the harness's worlds (all four base kinds, every fault schedule) are worlds of the theorems *)
-Theorem C03_worlds_in_fault_model : forall y v d ln gu,
-  base_ok opt_none (mk_world y 0 v d ln gu) /\ base_ok opt_exe (mk_world y 1 v d ln gu) /\
-  base_ok opt_links (mk_world y 2 v d ln gu) /\ base_ok opt_race (mk_world y 3 v d ln gu).
-Proof. exact base_ok_worlds. Qed.
+(* the harness's worlds (all four base kinds, every fault schedule) are worlds of these theorems *)
+Theorem C03_worlds_in_fault_model : forall y kind v d ln gu, (kind <= 3)%nat ->
+  base_ok opt_links (mk_world y kind v d ln gu).
+Proof. exact base_ok_worlds_links. Qed.
 Print Assumptions C03_worlds_in_fault_model.
 
-(* ---- defects: the faithful scripts break the property on single-fault schedules *)
-Theorem C03_exe_kthread_refuted :
-  fst (run (mk_world y0 1 None [1%nat] true false) f_exe st0) = RExc XFnf.
-Proof. exact exe_kthread_refuted. Qed.
-Print Assumptions C03_exe_kthread_refuted.
-Theorem C03_children_refuted :
-  fst (run (mk_world y0 0 None [5%nat] true false) f_children st0) = RExc XPerm.
-Proof. exact children_refuted. Qed.
-Print Assumptions C03_children_refuted.
-Theorem C03_ppid_refuted :
+(* ---- repaired defects (commits 1c63e73, 4ee76b0, a4fac6f): the scripts of the code before the repairs
+        break the property on single-refusal schedules *)
+Theorem C03_legacy_exe_kthread_refuted :
+  fst (run (mk_world y0 1 None [1%nat] true false) legacy_f_exe st0) = RExc XFnf.
+Proof. exact legacy_exe_kthread_refuted. Qed.
+Print Assumptions C03_legacy_exe_kthread_refuted.
+Theorem C03_legacy_children_refuted :
+  fst (run (mk_world y0 0 None [5%nat] true false) legacy_f_children st0) = RExc XPerm.
+Proof. exact legacy_children_refuted. Qed.
+Print Assumptions C03_legacy_children_refuted.
+Theorem C03_legacy_ppid_refuted :
   let w := mk_world y0 0 None [0%nat] true false in
-  fst (run w f_ppid st0) = RExc (XNSP Self) /\ gone w (snd (run w f_ppid st0)) = false.
-Proof. exact ppid_refuted. Qed.
-Print Assumptions C03_ppid_refuted.
-(* outside the property's quantifier (two refusals), recorded because cwd() is left out of the zombie theorem *)
-Theorem C03_cwd_zombie_two_refusals_refuted :
-  fst (run (mk_world y0 2 None [1%nat; 2%nat] true false) i_cwd st0) = RExc XFnf.
-Proof. exact cwd_zombie_two_refusals_refuted. Qed.
-Print Assumptions C03_cwd_zombie_two_refusals_refuted.
+  fst (run w legacy_f_ppid st0) = RExc (XNSP Self) /\ gone w (snd (run w legacy_f_ppid st0)) = false.
+Proof. exact legacy_ppid_refuted. Qed.
+Print Assumptions C03_legacy_ppid_refuted.
